@@ -1,12 +1,105 @@
 import DriverLib.Store
-open Lean Drv
+import QV.Model.StoreLoc
+open Lean Drv QV.Store
 
 namespace Drv.C11
 
-/-- op `c11.run`: replay a save / load / autoload history on the heap model (see `Drv.Store.runOps`). -/
+/-- one operation of a history with open file objects: a stream operation, or any operation of `Drv.Store.parseOp` -/
+def parseSOp (j : Json) : R SOp := do
+  let t ← jStr (← fld j "t")
+  match t with
+  | "openS" => return .openS (← jNat (← fld j "sid"))
+  | "writeHdr" => return .writeHdr (← jNat (← fld j "sid")) (← jNat (← fld j "n"))
+  | "seekS" => return .seekS (← jNat (← fld j "sid")) (← jNat (← fld j "pos"))
+  | "saveS" =>
+    return .saveS (← jNat (← fld j "slot")) (← Drv.Store.jOptNat j "md") (← jNat (← fld j "sid")) (← jNat (← fld j "size"))
+  | "loadS" => return .loadS (← jNat (← fld j "slot")) (← jNat (← fld j "sid"))
+  | "autoloadS" =>
+    return .autoloadS (← jNat (← fld j "slot")) (← Drv.Store.jKind (← fld j "kind")) (← jNat (← fld j "sid"))
+      (← Drv.Store.jNatListList (← fld j "rand"))
+  | _ => return .base (← Drv.Store.parseOp j)
+
+def streamOut (s : Stream) : Json :=
+  Json.mkObj [("pos", nOut s.pos),
+    ("recs", .arr (s.recs.toArray.map (fun r => Json.arr #[nOut r.size, match r.data with
+      | none => .null
+      | some f => Drv.Store.dictOut f])))]
+
+def sworldOut (sw : SWorld) (e : Option SErr) : Json :=
+  (Drv.Store.worldOut sw.w e).setObjVal! "streams" (Drv.Store.slotsOut sw.streams streamOut)
+
+/-- op `c11.srun`: in `ops` (a history with file-object operations), out: the world (with its file objects) after every operation -/
+def srunOps (j : Json) : R Json := do
+  let ops ← (← jArr (← fld j "ops")).mapM parseSOp
+  let tr := strace SWorld.empty ops.toList
+  return .arr (tr.toArray.map (fun r => sworldOut r.1 r.2))
+
+def jStrList (j : Json) : R (List String) := do return (← (← jArr j).mapM jStr).toList
+
+def jPathArg (j : Json) : R PathArg := do
+  return ⟨← jBool (← fld j "abs"), ← jStrList (← fld j "comps")⟩
+
+/-- template pieces: a string = literal text, `{"auto": true}` = `{}`, `{"idx": n}` = `{n}`, `{"named": s}` = `{s}` -/
+def jSeg (j : Json) : R Seg :=
+  match j with
+  | .str s => .ok (.lit s)
+  | _ =>
+    match fldOpt j "idx", fldOpt j "named" with
+    | some n, _ => do return .idx (← jNat n)
+    | _, some s => do return .named (← jStr s)
+    | _, _ => .ok .auto
+
+def targetOut (r : Except PErr (Option (List String × String))) : Json :=
+  match r with
+  | .error e => Json.mkObj [("error", .str e.toString)]
+  | .ok none => .null
+  | .ok (some t) => Json.mkObj [("dir", .arr (t.1.toArray.map Json.str)), ("name", .str t.2)]
+
+/-- op `c11.saverPath`: `ModelSaver(period, folder, file_name, save_initial, metadata)` created while the working directory is
+`cwd0` in a tree with the given directories and regular files; then the callback events `queries` (each: the working directory
+at that moment and an epoch number, or `"initial"` for `on_train_start`).  Out: whether the construction is refused, and for
+every event where the model writes (directory, file name | null | error) and whether the write itself is refused because of
+the form of `metadata` (`Store.saverSaveArg` on a one-state world). -/
+def saverPath (j : Json) : R Json := do
+  let cwd0 ← jStrList (← fld j "cwd0")
+  let folder ← jPathArg (← fld j "folder")
+  let tmpl ← (← jArr (← fld j "fileName")).mapM jSeg
+  let period ← jNat (← fld j "period")
+  let si ← jBool (← fld j "saveInitial")
+  let dirs ← (← jArr (← fld j "dirs")).mapM jStrList
+  let files ← (← jArr (← fld j "files")).mapM jStrList
+  let resolve := match fldOpt j "resolve" with | some (.bool b) => b | _ => true
+  let mform ← jStr (← fld j "metaForm")
+  let mo ← jBool (← fld j "metadataOnly")
+  let fs : DirFs := fun q => if q = [] || dirs.contains q then some true else if files.contains q then some false else none
+  match PSaver.init resolve fs cwd0 period folder tmpl.toList si with
+  | .error e => return Json.mkObj [("initError", .str e.toString)]
+  | .ok (sv, fs') =>
+    let c := constructSizes Heap.empty .pos 2 (some 1) none none [[5]]
+    let h1 : Heap := { c.1 with dicts := upd c.1.dicts c.1.next [], next := c.1.next + 1 }
+    let marg : MetaArg := match mform with
+      | "none" => .absent
+      | "dict" => .dict c.1.next
+      | "callable" => .callable []
+      | _ => .other
+    let writeRefused : Bool := match saverSaveArg h1 (fun _ => none) c.2 marg mo 0 with
+      | .error _ => true
+      | .ok _ => false
+    let qs ← (← jArr (← fld j "queries")).mapM (fun q => do
+      let cwd ← jStrList (← fld q "cwd")
+      match (← fld q "epoch") with
+      | .str _ => return targetOut (sv.trainStartTarget cwd)
+      | e => return targetOut (sv.epochEndTarget cwd (← jNat e)))
+    return Json.mkObj [("initError", .null), ("folderIsDir", .bool (fs' (resolvePath cwd0 folder) == some true)),
+      ("path", .arr (sv.path.comps.toArray.map Json.str)), ("writeRefused", .bool writeRefused), ("targets", .arr qs)]
+
+/-- op `c11.run`: replay a save / load / autoload history on the heap model (see `Drv.Store.runOps`);
+`c11.srun`: the same with open file objects; `c11.saverPath`: where and whether `ModelSaver` writes. -/
 def handle (op : String) (j : Json) : Option (R Json) :=
   match op with
   | "c11.run" => some (Drv.Store.runOps j)
+  | "c11.srun" => some (srunOps j)
+  | "c11.saverPath" => some (saverPath j)
   | _ => none
 
 end Drv.C11
